@@ -1455,7 +1455,16 @@ fn collect_clause_handles(clause: &MutationClause, out: &mut BTreeSet<String>) {
             collect_facets_handles(&c.set_facets, out);
             collect_edges_handles(c.set_structural.as_ref(), out);
         }
-        MutationClause::EnsureProposition(_) => {}
+        MutationClause::EnsureProposition(c) => {
+            // A `?handle` endpoint is resolved through the plan's handle table
+            // at run time exactly like any other handle reference; ENSURE has
+            // no WHERE of its own to bind one.
+            for term in [&c.subject, &c.object] {
+                if let Term::Variable(name) = term {
+                    out.insert(name.clone());
+                }
+            }
+        }
         MutationClause::Update(c) => {
             element(&c.target);
             for action in &c.actions {
